@@ -1,8 +1,8 @@
 //@ assume: Transaction, PoolEntry, Pool, the blockchain adapter and the pool adapter are abstract; fees are uninterpreted functions of a transaction's kernels (shifted_fee / accept_fee are decided on the real code in C14/weights); convert_tx_v2 replaces inputs only and therefore preserves both fee functions (assumed); is_acceptable carries the contract proved of the real body in C14/is_acceptable; the pools log the entries they accept
 //@ assume: T6 rewrites: `let ref tx = entry.tx;` / `let ref entry = ..` => `let tx = &entry.tx;` / by-value binding used by reference; `acceptability.as_ref().err() == Some(&PoolError::OverCapacity)` => helper is_over_capacity; the coinbase-input iterator chain + slice conversion => helper coinbase_inputs_of; `.map_err(PoolError::InvalidTx)?` => `?`; `extra_tx.clone()` => helper clone; log macros removed
-//@ assume: decided here: TransactionPool::add_to_pool admits a transaction (into the stempool or the txpool) only if the entry it stores -- after de-aggregation -- passed verify_kernel_variants, PAYS AT LEAST THE MINIMUM FEE FOR ITS WEIGHT, validates standalone under the transaction weight limit, meets the lock-height and coinbase-maturity rules, and was accepted by the pool's own joint validation; reconcile_block always runs the full re-validation of the txpool and then of the stempool
-//@ assumed_items: 27
-//@ fns: TransactionPool::add_to_pool, TransactionPool::reconcile_block
+//@ assume: decided here: TransactionPool::add_to_pool admits a transaction (into the stempool or the txpool) only if the entry it stores -- after de-aggregation -- passed verify_kernel_variants, PAYS AT LEAST THE MINIMUM FEE FOR ITS WEIGHT, validates standalone under the transaction weight limit, meets the lock-height and coinbase-maturity rules, and was accepted by the pool's own joint validation; reconcile_block always runs the full re-validation of the txpool and then of the stempool; reconcile_reorg_cache (after a reorg) brings back ONLY entries of the reorg cache -- entries add_to_pool admitted earlier -- each through the txpool's joint validation, and adds nothing to the stempool (`for entry in entries` => index loop; the cache snapshot chain `.read().iter().cloned().collect()` => snapshot())
+//@ assumed_items: 28
+//@ fns: TransactionPool::add_to_pool, TransactionPool::reconcile_block, TransactionPool::reconcile_reorg_cache, TransactionPool::add_to_stempool, TransactionPool::add_to_txpool, TransactionPool::evict_from_txpool
 global size_of usize == 8;
 #[verifier::external_body]
 #[derive(Clone, Copy)]
@@ -88,7 +88,13 @@ impl Adapter {
     #[verifier::external_body]
     pub fn tx_accepted(&self, e: &PoolEntry) { unimplemented!() }
 }
-pub struct TransactionPool { pub txpool: Pool, pub stempool: Pool, pub blockchain: Chain, pub adapter: Adapter }
+/// the reorg cache (Arc<RwLock<VecDeque<PoolEntry>>>): `snapshot` stands in for `.read().iter().cloned().collect::<Vec<_>>()`
+pub struct ReorgCache { pub entries: Ghost<Seq<PoolEntry>> }
+impl ReorgCache {
+    #[verifier::external_body]
+    pub fn snapshot(&self) -> (r: Vec<PoolEntry>) ensures r@ == self.entries@ { unimplemented!() }
+}
+pub struct TransactionPool { pub txpool: Pool, pub stempool: Pool, pub blockchain: Chain, pub adapter: Adapter, pub reorg_cache: ReorgCache }
 impl TransactionPool {
     #[verifier::external_body]
     fn deaggregate_tx(&self, entry: PoolEntry) -> (r: Result<PoolEntry, PoolError>) { unimplemented!() }
@@ -104,7 +110,7 @@ impl TransactionPool {
         ensures r matches Ok(e) ==> sp_valid_as_tx(e.tx) && sp_shifted_fee(e.tx) == sp_shifted_fee(entry.tx) && sp_accept_fee(e.tx) == sp_accept_fee(entry.tx)
             && sp_variants_ok(e.tx) == sp_variants_ok(entry.tx) && sp_lock_height_ok(e.tx) == sp_lock_height_ok(entry.tx) { unimplemented!() }
     #[verifier::external_body]
-    fn add_to_reorg_cache(&mut self, entry: &PoolEntry) ensures final(self).txpool == old(self).txpool, final(self).stempool == old(self).stempool { unimplemented!() }
+    fn add_to_reorg_cache(&mut self, entry: &PoolEntry) ensures final(self).txpool == old(self).txpool, final(self).stempool == old(self).stempool, final(self).reorg_cache.entries@ == old(self).reorg_cache.entries@.push(*entry) || final(self).reorg_cache.entries@ == old(self).reorg_cache.entries@.push(*entry).drop_first() { unimplemented!() }
 //@ extract pool/src/transaction_pool.rs :: impl TransactionPool::add_to_stempool
 //@   rewrite `entry.clone()` => `*entry` x?
 //@   ensures:
@@ -121,7 +127,7 @@ impl TransactionPool {
 //@+        // the stempool is reconciled against the NEW txpool content
 //@+        && final(self).stempool.synced_with@.contains(final(self).txpool.gen@),
 //@+    r.is_err() ==> final(self).txpool.added@ == old(self).txpool.added@ || final(self).txpool.added@ == old(self).txpool.added@.push(*entry),
-//@+    final(self).stempool.added@ == old(self).stempool.added@,
+//@+    final(self).stempool.added@ == old(self).stempool.added@, final(self).reorg_cache == old(self).reorg_cache,
 //@ end
 //@ extract pool/src/transaction_pool.rs :: impl TransactionPool::evict_from_txpool
 //@   ensures:
@@ -152,6 +158,25 @@ impl TransactionPool {
 //@+    r.is_ok() ==> final(self).stempool.synced_with@.contains(final(self).txpool.gen@),
 //@   decreases:
 //@+    (if stem { 1nat } else { 0nat }),
+//@ end
+
+//@ extract pool/src/transaction_pool.rs :: impl TransactionPool::reconcile_reorg_cache
+//@   strip_logs
+//@   rewrite `let entries = self.reorg_cache.read().iter().cloned().collect::<Vec<_>>();` => `let entries = self.reorg_cache.snapshot();`
+//@   rewrite `for entry in entries {` => `let mut ix: usize = 0; while ix < entries.len() { let entry = entries[ix]; ix += 1;`
+//@   requires:
+//@+    // the cache holds only entries that passed admission (add_to_pool is its only writer)
+//@+    forall|i: int| 0 <= i < old(self).reorg_cache.entries@.len() ==> entry_ok(#[trigger] old(self).reorg_cache.entries@[i]),
+//@   ensures:
+//@+    // after a reorg ONLY cached, previously admitted entries come back, each through the txpool's own joint validation; the stempool gains nothing
+//@+    TransactionPool::admitted_ok(*old(self), *final(self)), final(self).stempool.added@ == old(self).stempool.added@,
+//@+    final(self).reorg_cache == old(self).reorg_cache,
+//@   loop 1:
+//@+    invariant
+//@+        ix <= entries@.len(), entries@ == old(self).reorg_cache.entries@, self.reorg_cache == old(self).reorg_cache,
+//@+        forall|i: int| 0 <= i < entries@.len() ==> entry_ok(#[trigger] entries@[i]),
+//@+        TransactionPool::admitted_ok(*old(self), *self), self.stempool.added@ == old(self).stempool.added@,
+//@+    decreases entries@.len() - ix,
 //@ end
 
 //@ extract pool/src/transaction_pool.rs :: impl TransactionPool::reconcile_block
